@@ -192,7 +192,9 @@ func replay(pkgPath string, harnessNames []string, cases []replayCase, race bool
 		}
 		if strings.Contains(txt, "WARNING: DATA RACE") {
 			r.Detail = "DATA RACE " + r.Detail
-			if race {
+			if race && cases[k].Race {
+				// only cases that predict a race are classified by the detector's
+				// verdict; a path witness of the same harness keeps its own outcome
 				r.Outcome = "race"
 			}
 		}
@@ -348,6 +350,9 @@ func report(cc *checkCfg, tier string, seed int, res *results, ran []*harnessCfg
 	}
 
 	replayDir := filepath.Join(verifDir, "replay", cc.Property)
+	if d := os.Getenv("VERIF_EVIDENCE_DIR"); d != "" {
+		replayDir = filepath.Join(d, "replay", cc.Property)
+	}
 	os.MkdirAll(replayDir, 0755)
 	var violLines, knownLines []string
 	knownHit := 0
@@ -520,8 +525,12 @@ func report(cc *checkCfg, tier string, seed int, res *results, ran []*harnessCfg
 		"violations":  totalViol,
 	}
 	eb, _ := json.MarshalIndent(ev, "", " ")
-	os.MkdirAll(filepath.Join(verifDir, "evidence"), 0755)
-	if err := os.WriteFile(filepath.Join(verifDir, "evidence", cc.Property+".json"), eb, 0644); err != nil {
+	evDir := filepath.Join(verifDir, "evidence")
+	if d := os.Getenv("VERIF_EVIDENCE_DIR"); d != "" {
+		evDir = d // development only (seed tryouts): keep /verif/evidence untouched
+	}
+	os.MkdirAll(evDir, 0755)
+	if err := os.WriteFile(filepath.Join(evDir, cc.Property+".json"), eb, 0644); err != nil {
 		broken("cannot write evidence: %v", err)
 	}
 
